@@ -4,6 +4,7 @@ import (
 	"fmt"
 	"go/ast"
 	"go/token"
+	"go/types"
 	"strings"
 )
 
@@ -393,7 +394,36 @@ func ruleDupScope(c *Ctx, r *Report, rule string) {
 	}
 	var loop *ast.ForStmt
 	addAfter := false
-	for _, s := range fd.Body.List {
+	// a scan that only counts the clashes (in a method of the scope tables), followed by a loop that reports one
+	// error per clash counted: `for n := clashes(name); n > 0; n-- { p.error(…) }`
+	var clashCounter types.Object // the counter the scan steps
+	countedErrLoop := false
+	for _, s := range c.expandedStmts(fd) {
+		if fs, ok := s.(*ast.ForStmt); ok && loop != nil && !countedErrLoop {
+			// the reporting loop after the scan
+			if as, isA := fs.Init.(*ast.AssignStmt); isA && len(as.Lhs) == 1 && len(as.Rhs) == 1 && fs.Cond != nil && fs.Post != nil {
+				nv := c.objOf(as.Lhs[0])
+				from := c.objOfExpr(as.Rhs[0])
+				be, isB := stripParens(fs.Cond).(*ast.BinaryExpr)
+				dec, isD := fs.Post.(*ast.IncDecStmt)
+				onlyErr := len(fs.Body.List) == 1
+				if onlyErr {
+					es, isE := fs.Body.List[0].(*ast.ExprStmt)
+					call, isC := (ast.Expr)(nil), false
+					if isE {
+						call, isC = es.X.(*ast.CallExpr)
+					}
+					onlyErr = isE && isC && c.calleeName(call.(*ast.CallExpr)) == "parser.error"
+				}
+				if nv != nil && from != nil && isB && isD && onlyErr && be.Op == token.GTR && c.isObj(be.X, nv) && dec.Tok == token.DEC && c.isObj(dec.X, nv) {
+					if k, isK := c.intConst(be.Y); isK && k == 0 {
+						clashCounter = from
+						countedErrLoop = true
+						continue
+					}
+				}
+			}
+		}
 		if fs, ok := s.(*ast.ForStmt); ok {
 			loop = fs
 		}
@@ -402,6 +432,10 @@ func ruleDupScope(c *Ctx, r *Report, rule string) {
 				addAfter = true
 			}
 		}
+	}
+	clashCounterOf := func() types.Object { return clashCounter }
+	if !countedErrLoop {
+		clashCounterOf = nil
 	}
 	okScan, okBreak, okDup := false, false, false
 	if loop != nil {
@@ -421,6 +455,10 @@ func ruleDupScope(c *Ctx, r *Report, rule string) {
 					if call, ok := es.X.(*ast.CallExpr); ok && c.calleeName(call) == "parser.error" {
 						hasErr = true
 					}
+				}
+				// counted now, reported by the loop that follows: one error per clash all the same
+				if inc, ok := b.(*ast.IncDecStmt); ok && inc.Tok == token.INC && clashCounterOf != nil && c.isObj(inc.X, clashCounterOf()) && len(ifs.Body.List) == 1 {
+					hasErr = true
 				}
 			}
 			atoms, pure := c.nnf(ifs.Cond, true, nil).conjuncts()
